@@ -9,6 +9,7 @@
 package main
 
 import (
+	"regexp"
 	"bufio"
 	"encoding/json"
 	"fmt"
@@ -100,7 +101,28 @@ func (c *Ctx) Law(ok bool, class, law, input, detail string) {
 	c.meta.LawFailCount[class]++
 	if c.meta.LawFailCount[class] <= 5 {
 		c.meta.LawFailures = append(c.meta.LawFailures, LawFailure{class, law, input, detail})
+		lawShapes[class+"\x00"+lawShape(input)] = true
+		return
 	}
+	// beyond the first five of a class: one more per new SHAPE of input (the words of the input, whatever stands between
+	// them), so that failures which a recorded finding accounts for cannot crowd out a failure of another kind
+	key := class + "\x00" + lawShape(input)
+	if !lawShapes[key] && lawExtra[class] < 60 {
+		lawShapes[key] = true
+		lawExtra[class]++
+		c.meta.LawFailures = append(c.meta.LawFailures, LawFailure{class, law, input, detail})
+	}
+}
+
+var lawShapes = map[string]bool{}
+var lawExtra = map[string]int{}
+var lawShapeRe = regexp.MustCompile(`[^A-Za-z]+`)
+
+func lawShape(input string) string {
+	if len(input) > 200 {
+		input = input[:200]
+	}
+	return lawShapeRe.ReplaceAllString(input, " ")
 }
 
 var props = map[string]func(*Ctx){}
